@@ -1,15 +1,91 @@
 /-
-Driver.PoolSuite — suite `pool` (stub: replaced by the owner of the suite).
-Must define `poolLine : String → String` (case line ↦ model observation line) and
-`poolPred : String → String → String → String` (property id, case line, implementation
-observation line ↦ "ok" | "fail <reason>").
+Driver.PoolSuite — suite `pool`: replay a schedule through Model.Pool and print
+the same observation as harness/src/suites/pool.rs.
 -/
 import Driver.Sx
+import VarlinkVerif.Model.Pool
+import VarlinkVerif.Pred.Pool
 
 namespace VV
+open Sx
 
-def poolLine (_line : String) : String := "(stub)"
+def parsePStep : Sx → Option PStep
+  | .atom "E" => some .enq
+  | .atom "G" => some .grow
+  | .atom "D" => some .deq
+  | .atom "P" => some .drop
+  | .list [.atom "S", j] => (asNat j).map .start
+  | .list [.atom "F", j] => (asNat j).map .finish
+  | .list [.atom "X", j] => (asNat j).map .dec
+  | _ => none
 
-def poolPred (_prop _caseLine _obsLine : String) : String := "fail stub-suite"
+structure PoolCase where
+  initial : Nat
+  max : Nat
+  steps : List PStep
+
+def parsePoolCase : Sx → Option PoolCase
+  | .list [.atom "pool", i, m, .list (.atom "steps" :: ss)] => do
+    let i ← asNat i
+    let m ← asNat m
+    let ss ← ss.mapM parsePStep
+    pure { initial := i, max := m, steps := ss }
+  | _ => none
+
+def poolObsLine (c : PoolCase) : Sx :=
+  let rec go (s : PoolSt) : List PStep → List Sx → PoolSt × List Sx
+    | [], acc => (s, acc.reverse)
+    | st :: rest, acc =>
+      let en := Pool.enabled s st
+      let s' := Pool.step s st
+      go s' rest (.list [.atom "o", ofBool en, .atom (toString s'.busy), .atom (toString s'.workers.length),
+                         .atom (toString (Pool.serving s'))] :: acc)
+  let (s, obs) := go (Pool.init c.initial c.max) c.steps []
+  -- after the schedule the harness lets everything run to completion and drops the pool:
+  -- every enqueued job finishes and every worker is joined (C15_drain)
+  .list (.atom "obs" :: obs ++ [.list [.atom "end", .atom (toString s.nextJob), .atom (toString s.nextJob), .atom "t"]])
+
+def poolLine (line : String) : String :=
+  match parse line with
+  | none => "(model-parse-error)"
+  | some sx =>
+    match parsePoolCase sx with
+    | none => "(model-case-error)"
+    | some c => render (poolObsLine c)
+
+def parsePoolObs : Sx → Option PoolObs
+  | .list (.atom "obs" :: items) =>
+    let step (acc : PoolObs) (x : Sx) : PoolObs :=
+      match x with
+      | .list [.atom "o", e, b, w, r] =>
+        match asOptBool e, asNat b, asNat w, asNat r with
+        | some (some e), some b, some w, some r =>
+          { acc with steps := acc.steps ++ [{ enabled := e, busy := b, workers := w, running := r }] }
+        | _, _, _, _ => { acc with timedOut := true }
+      | .list [.atom "timeout"] => { acc with timedOut := true }
+      | .list [.atom "end", f, n, j] =>
+        match asNat f, asNat n, asOptBool j with
+        | some f, some n, some (some j) => { acc with finished := f, enqueued := n, joined := j }
+        | _, _, _ => { acc with timedOut := true }
+      | _ => { acc with timedOut := true }
+    some (items.foldl step { steps := [] })
+  | .list (.atom "panic" :: _) => some { steps := [], timedOut := true }
+  | _ => none
+
+def poolPred (prop : String) (caseLine obsLine : String) : String :=
+  match parse caseLine, parse obsLine with
+  | some cs, some os =>
+    match parsePoolCase cs, parsePoolObs os with
+    | some c, some o =>
+      let v : PVerdict :=
+        match prop with
+        | "C14" => P_C14 c.initial c.max c.steps o
+        | "C15" => P_C15_drain o
+        | _ => some "unknown-property"
+      match v with
+      | none => "ok"
+      | some r => "fail " ++ r
+    | _, _ => "fail unparsable-case-or-observation"
+  | _, _ => "fail unparsable-line"
 
 end VV
